@@ -259,3 +259,43 @@ fn c02_kf_nonutf8_path() {
     }
     std::mem::forget(req);
 }
+
+// =================================================================================================
+// F — the whole `Request::read` on fixed-width templates (future polled in place, DESIGN.md section 8.2)
+// =================================================================================================
+fn read_template<const N: usize>(data: &'static [u8; N]) -> (Request, Result<Option<()>, ()>) {
+    let mut stream = SliceReader::new(&data[..], &[]);
+    let mut req = v::request_init();
+    let r = {
+        let mut fut = v::request_read(unsafe { std::pin::Pin::new_unchecked(&mut req) }, &mut stream);
+        let r = crate::support::exec::block_on_in_place(&mut fut, 1).expect("C02: read waits for input although the whole request arrived");
+        std::mem::forget(fut);
+        r
+    };
+    let r = match r { Ok(x) => Ok(x), Err(res) => { std::mem::forget(res); Err(()) } };
+    (req, r)
+}
+
+// @verif prop=C02 tier=quick replay=none timeout=900 mem=12 unwindset="7Request4read.*\.\d+ :3;skip_while.*\.0 :8" bounds="`GET / HTTP/1.1 CRLF A: CRLF B: xy CRLF CRLF` with x, y symbolic printable bytes or spaces (an empty header value before a non-empty one)"
+#[kani::proof]
+#[kani::stub(core::str::from_utf8, stubs::from_utf8_model)]
+#[kani::stub(ohkami::util::unix_timestamp, stubs::unix_timestamp_zero)]
+#[kani::stub(ohkami_lib::time::imf_fixdate, stubs::fixdate_const)]
+#[kani::unwind(34)]
+fn c02_read_two_headers_first_empty() {
+    let data = crate::support::io::template::<30>(b"GET / HTTP/1.1\r\nA: \r\nB: xy\r\n\r\n", &[24, 25]);
+    kani::assume(data[24] >= 0x20 && data[24] < 0x7f && data[25] >= 0x20 && data[25] < 0x7f);
+    let data: &'static [u8; 30] = &*data;
+    let (req, r) = read_template::<30>(data);
+    assert!(r == Ok(Some(())), "C02: a well-formed request was refused");
+    assert!(req.method == Method::GET, "C02: method differs from the wire bytes");
+    let p: &str = &req.path;
+    assert!(p == "/", "C02: path differs from the wire bytes");
+    assert!(req.headers.get("A") == Some(""), "C02: header with an empty value is not delivered as empty");
+    let b = req.headers.get("B");
+    assert!(b.map(|b| b.as_bytes() == &data[24..26]) == Some(true), "C02: header value differs from the wire bytes");
+    assert!(req.payload().is_none(), "C02: payload invented");
+    kani::cover!(data[24] == b' ', "value with a leading space");
+    kani::cover!(data[24] != b' ', "value without leading space");
+    std::mem::forget(req);
+}
